@@ -19,6 +19,7 @@ def cases(rng, tier):
     out = C.build_cases(rng, n, calls_per=2, style='pos1', tag='c05a')
     out += C.build_cases(rng, n // 2, calls_per=2, style=None, tag='c05b')
     out += C.build_cases(rng, n // 3, calls_per=2, style='posall', tag='c05c')
+    out += C.scenario_cases(rng, n // 6, tag='c05sc') + C.scenario_cases(rng, n // 6, style='pos1', tag='c05sd')
     return out
 
 
